@@ -194,13 +194,19 @@ fn run_cycle(plan: &Value, rec: &mut Rec) {
     let pw = Password::from(&pw_bytes[..]);
     // a wrong password that is as close to the right one as possible: last octet changed, one octet
     // longer or one octet shorter (chosen by the plan)
+    // (iterated S2K hashes salt||password cyclically up to the count: a password that is one octet
+    // shorter or longer collides by design when the octet concerned equals the first salt octet and the
+    // count ends there - so those two variants are only used with the other specifiers, and the
+    // extension is longer than a salt)
+    let iterated = jstr(&plan["s2k"], "k") == "iterated";
     let mut wrong = pw_bytes.clone();
     match (ju64(plan, "pick") % 3, wrong.len()) {
         (0, n) if n > 0 => wrong[n - 1] ^= 0x01,
-        (1, n) if n > 1 => {
+        (1, n) if n > 1 && !iterated => {
             wrong.pop();
         }
-        _ => wrong.push(b'!'),
+        (1, n) if n > 0 => wrong[n - 1] ^= 0x80,
+        _ => wrong.extend_from_slice(b"!wrong-pw!"),
     }
     let wrong_pw = Password::from(&wrong[..]);
     let mut rng = SimRng::new(ju64(plan, "rng_key"), "c08", jbool(plan, "bias"));
